@@ -270,13 +270,13 @@ class GenericNonMultiplicativeRegistry(
             raise DimensionalityError(src, dst, src_dim, dst_dim)
 
         # clean src from offset units by converting to reference
+        src_mult = src
         if src_offset_unit:
             if any(u.startswith("delta_") for u in dst):
                 raise DimensionalityError(src, dst)
-            value = self._units[src_offset_unit].converter.to_reference(value, inplace)
-            src = src.remove([src_offset_unit])
+            src_mult = src.remove([src_offset_unit])
             # Add reference unit for multiplicative section
-            src = self._add_ref_of_log_or_offset_unit(src_offset_unit, src)
+            src_mult = self._add_ref_of_log_or_offset_unit(src_offset_unit, src_mult)
 
         # clean dst units from offset units
         if dst_offset_unit:
@@ -285,6 +285,16 @@ class GenericNonMultiplicativeRegistry(
             dst = dst.remove([dst_offset_unit])
             # Add reference unit for multiplicative section
             dst = self._add_ref_of_log_or_offset_unit(dst_offset_unit, dst)
+
+        # Refuse before anything is converted: an inplace conversion that raises
+        # must leave the value as it was.
+        factor = self._get_conversion_factor(src_mult, dst)
+        if isinstance(factor, DimensionalityError):
+            raise factor
+
+        if src_offset_unit:
+            value = self._units[src_offset_unit].converter.to_reference(value, inplace)
+        src = src_mult
 
         # Convert non multiplicative units to the dst.
         value = super()._convert(value, src, dst, inplace, False)
